@@ -441,3 +441,156 @@ Theorem tree_from_dict_refused w items e w' : op_tree_from_dict w items = (Err e
 Proof.
   unfold op_tree_from_dict. destruct (from_dict_items _ 0 items _) as [[r1|e1] w1]; [discriminate|]. intros H. now injection H as _ <-.
 Qed.
+
+(* ------------------------------------------------------------------ *)
+(* Part 3: in-place filter *)
+
+(* the structural reading of a list of removals: branches rooted in B go, nodes of K lose their children *)
+Definition inl (x : nat) (l : list nat) : bool := existsb (Nat.eqb x) l.
+Fixpoint cut_t (B K : list nat) (t : rt) : list rt :=
+  match t with
+  | T id i ch => if inl id B then [] else [T id i (if inl id K then [] else flat_map (cut_t B K) ch)]
+  end.
+Notation cut B K := (flat_map (cut_t B K)).
+
+Lemma cut_app B K a b : cut B K (a ++ b) = cut B K a ++ cut B K b.
+Proof. apply flat_map_app. Qed.
+
+Lemma cut_ext B K B' K' : forall t,
+  (forall x, In x (ids_t t) -> inl x B = inl x B' /\ inl x K = inl x K') -> cut_t B K t = cut_t B' K' t.
+Proof.
+  induction t as [id i ch IH] using rt_ind'. intros H. cbn [cut_t].
+  destruct (H id (proj2 (in_ids_t id id i ch) (or_introl eq_refl))) as [E1 E2]. rewrite E1, E2.
+  destruct (inl id B'); [reflexivity|]. destruct (inl id K'); [reflexivity|]. f_equal. f_equal.
+  assert (Hc : forall x, In x (ids ch) -> inl x B = inl x B' /\ inl x K = inl x K') by (intros x Hx; apply H; apply in_ids_t; now right).
+  clear H E1 E2. induction ch as [|c ch IHch]; [reflexivity|]. inversion IH as [|? ? Hc1 Hcs]; subst. cbn [flat_map]. f_equal.
+  - apply Hc1. intros x Hx. apply Hc. apply in_ids_cons. now left.
+  - apply IHch; [exact Hcs|]. intros x Hx. apply Hc. apply in_ids_cons. now right.
+Qed.
+
+Lemma cut_ext_f B K B' K' f :
+  (forall x, In x (ids f) -> inl x B = inl x B' /\ inl x K = inl x K') -> cut B K f = cut B' K' f.
+Proof.
+  induction f as [|t f IH]; intros H; [reflexivity|]. cbn [flat_map]. f_equal.
+  - apply cut_ext. intros x Hx. apply H. apply in_ids_cons. now left.
+  - apply IH. intros x Hx. apply H. apply in_ids_cons. now right.
+Qed.
+
+Lemma cut_nil : forall t, cut_t [] [] t = [t].
+Proof.
+  induction t as [id i ch IH] using rt_ind'. cbn [cut_t inl existsb]. f_equal. f_equal.
+  induction ch as [|c ch IHch]; [reflexivity|]. inversion IH as [|? ? Hc Hcs]; subst. cbn [flat_map]. rewrite Hc, (IHch Hcs). reflexivity.
+Qed.
+
+Lemma cut_nil_f f : cut [] [] f = f.
+Proof. induction f as [|t f IH]; [reflexivity|]. cbn [flat_map]. now rewrite cut_nil, IH. Qed.
+
+Lemma inl_false x l : ~ In x l -> inl x l = false.
+Proof.
+  intros H. unfold inl. destruct (existsb (Nat.eqb x) l) eqn:E; [|reflexivity]. exfalso. apply H.
+  apply existsb_exists in E. destruct E as (y & Hy & Ey). apply Nat.eqb_eq in Ey. now subst.
+Qed.
+
+Lemma inl_true x l : In x l -> inl x l = true.
+Proof. intros H. apply existsb_exists. exists x. split; [assumption|apply Nat.eqb_refl]. Qed.
+
+Lemma cut_absent B K f : (forall x, In x (ids f) -> ~ In x B /\ ~ In x K) -> cut B K f = f.
+Proof.
+  intros H. rewrite <- (cut_nil_f f) at 2. apply cut_ext_f. intros x Hx. destruct (H x Hx). split; now apply inl_false.
+Qed.
+
+Lemma cut_cut B1 K1 B2 K2 : forall t, cut B2 K2 (cut_t B1 K1 t) = cut_t (B1 ++ B2) (K1 ++ K2) t.
+Proof.
+  induction t as [id i ch IH] using rt_ind'. cbn [cut_t]. unfold inl. rewrite !existsb_app. fold (inl id B1) (inl id B2) (inl id K1) (inl id K2).
+  destruct (inl id B1); [reflexivity|]. cbn [orb flat_map cut_t]. rewrite app_nil_r.
+  destruct (inl id B2); [reflexivity|]. f_equal. f_equal.
+  destruct (inl id K1); cbn [orb]; [now destruct (inl id K2)|]. destruct (inl id K2); [reflexivity|].
+  induction ch as [|c ch IHch]; [reflexivity|]. inversion IH as [|? ? Hc Hcs]; subst.
+  cbn [flat_map]. rewrite cut_app, Hc, (IHch Hcs). reflexivity.
+Qed.
+
+Lemma cut_cut_f B1 K1 B2 K2 f : cut B2 K2 (cut B1 K1 f) = cut (B1 ++ B2) (K1 ++ K2) f.
+Proof. induction f as [|t f IH]; [reflexivity|]. cbn [flat_map]. rewrite cut_app, cut_cut, IH. reflexivity. Qed.
+
+Lemma prune_is_cut V : forall t, prune_t V t = cut_t V [] t.
+Proof.
+  induction t as [id i ch IH] using rt_ind'. cbn [prune_t cut_t inl existsb]. fold (inl id V). destruct (inl id V); [reflexivity|]. f_equal. f_equal.
+  induction ch as [|c ch IHch]; [reflexivity|]. inversion IH as [|? ? Hc Hcs]; subst. cbn [flat_map]. now rewrite Hc, (IHch Hcs).
+Qed.
+
+Lemma prune_is_cut_f V f : prune V f = cut V [] f.
+Proof. induction f as [|t f IH]; [reflexivity|]. cbn [flat_map]. now rewrite prune_is_cut, IH. Qed.
+
+Lemma ids_cons_t t f : ids (t :: f) = ids_t t ++ ids f.
+Proof. unfold ids, ids_t. cbn [flat_map]. now rewrite map_app. Qed.
+
+(* remove_children() of one node by path surgery = cutting below that node *)
+Lemma cut_kids_t n : forall r t, find_path n t = Some r -> NoDup (ids_t t) ->
+  cut_t [] [n] t = [set_ch (upd_ch r (fun _ => [])) t].
+Proof.
+  induction r as [|j rest IH]; intros [id i ch] H ND; rewrite find_path_unfold in H; cbn [set_ch cut_t inl existsb];
+    destruct (Nat.eqb id n) eqn:E; try discriminate.
+  - reflexivity.
+  - destruct (find_in_inv n ch 0 [] H) as (a & t & b & r & _ & X & _). discriminate.
+  - destruct (find_in_inv n ch 0 _ H) as (a & t & b & r & -> & X & Ht & Ha). cbn [Nat.add] in X. injection X as -> <-.
+    cbn [orb upd_ch]. rewrite upd_nth_split, !cut_app. cbn [flat_map]. f_equal. f_equal.
+    rewrite ids_t_unfold in ND. cbn [rid rch] in ND. apply NoDup_cons_iff in ND. destruct ND as [_ ND]. rewrite ids_app, ids_cons_t in ND.
+    assert (Hn : In n (ids_t t)).
+    { destruct (proj1 find_path_sound t n rest Ht) as (s & Hs & <-). destruct (sub_at_loc rest t s Hs) as (_ & _ & Hin & _). unfold ids_t. now apply in_map. }
+    assert (Ca : cut [] [n] a = a).
+    { apply cut_absent. intros x Hx. split; [intros []|]. intros [<-|[]]. apply (NoDup_app_disj _ _ n ND Hx). apply in_or_app. now left. }
+    assert (Cb : cut [] [n] b = b).
+    { apply cut_absent. intros x Hx. split; [intros []|]. intros [<-|[]]. apply NoDup_app_r in ND. apply (NoDup_app_disj _ _ n ND Hn Hx). }
+    rewrite Ca, Cb, (IH t Ht); [reflexivity|]. apply NoDup_app_r in ND. now apply NoDup_app_l in ND.
+Qed.
+
+Lemma cut_kids_f n f pq : find_path_in n f 0 = Some pq -> NoDup (ids f) ->
+  cut [] [n] f = upd_ch pq (fun _ => []) f.
+Proof.
+  intros H ND. destruct (find_in_inv n f 0 _ H) as (a & t & b & r & -> & -> & Ht & Ha). cbn [Nat.add upd_ch].
+  rewrite upd_nth_split, !cut_app. cbn [flat_map]. rewrite ids_app, ids_cons_t in ND.
+  assert (Hn : In n (ids_t t)).
+  { destruct (proj1 find_path_sound t n r Ht) as (s & Hs & <-). destruct (sub_at_loc r t s Hs) as (_ & _ & Hin & _). unfold ids_t. now apply in_map. }
+  assert (Ca : cut [] [n] a = a).
+  { apply cut_absent. intros x Hx. split; [intros []|]. intros [<-|[]]. apply (NoDup_app_disj _ _ n ND Hx). apply in_or_app. now left. }
+  assert (Cb : cut [] [n] b = b).
+  { apply cut_absent. intros x Hx. split; [intros []|]. intros [<-|[]]. apply NoDup_app_r in ND. apply (NoDup_app_disj _ _ n ND Hn Hx). }
+  rewrite Ca, Cb, (cut_kids_t n r t Ht); [reflexivity|]. apply NoDup_app_r in ND. now apply NoDup_app_l in ND.
+Qed.
+
+Definition Bof (acts : list fact) : list nat := flat_map (fun a => match a with FBranch n => [n] | FKids _ => [] end) acts.
+Definition Kof (acts : list fact) : list nat := flat_map (fun a => match a with FKids n => [n] | FBranch _ => [] end) acts.
+
+Lemma Bof_app a b : Bof (a ++ b) = Bof a ++ Bof b. Proof. apply flat_map_app. Qed.
+Lemma Kof_app a b : Kof (a ++ b) = Kof a ++ Kof b. Proof. apply flat_map_app. Qed.
+Lemma Bof_branches l : Bof (map FBranch l) = l.
+Proof. induction l as [|x l IH]; [reflexivity|]. cbn [map]. change (Bof (FBranch x :: map FBranch l)) with (x :: Bof (map FBranch l)). now rewrite IH. Qed.
+Lemma Kof_branches l : Kof (map FBranch l) = [].
+Proof. induction l as [|x l IH]; [reflexivity|]. cbn [map]. change (Kof (FBranch x :: map FBranch l)) with (Kof (map FBranch l)). exact IH. Qed.
+
+(* one removal of the filter = one cut *)
+Lemma apply_fact_cut t a : WF t -> ~ In 0 (Kof [a]) ->
+  forest_of (apply_fact t a) = cut (Bof [a]) (Kof [a]) (forest_of t).
+Proof.
+  intros W Nz. assert (ND := wf_nodup t W). destruct a as [n|n]; cbn [apply_fact Bof Kof flat_map app].
+  - rewrite <- prune_is_cut_f. destruct (remove_branch t n) as [t'|] eqn:E; [now apply remove_branch_prune|].
+    symmetry. apply prune_absent_f. intros x [<-|[]] Hin.
+    destruct (get_node_complete n _ Hin) as (s & Hs). destruct (remove_one_some t n false s Hs) as (t' & Ht). cbn [remove_one] in Ht. congruence.
+  - assert (Nn : n <> 0) by (intros ->; apply Nz; now left).
+    unfold remove_kids, parent_path, node_path. apply Nat.eqb_neq in Nn. rewrite Nn.
+    destruct (find_path_in n (forest_of t) 0) as [pq|] eqn:E.
+    + assert (Gp : parent_path n (forest_of t) = Some pq) by (unfold parent_path, node_path; now rewrite Nn).
+      destruct (parent_path_get n _ pq Gp) as (ch & Gc). rewrite Gc. destruct (unregister_all (pre_f ch) (reg t) (idx t)).
+      cbn [forest_of set_all]. symmetry. now apply cut_kids_f.
+    + symmetry. apply cut_absent. intros x Hx. split; [intros []|]. intros [<-|[]].
+      now apply (proj2 find_path_complete (forest_of t) n 0 E).
+Qed.
+
+Lemma apply_facts_cut acts : forall t, WF t -> ~ In 0 (Kof acts) ->
+  forest_of (fold_left apply_fact acts t) = cut (Bof acts) (Kof acts) (forest_of t).
+Proof.
+  induction acts as [|a acts IH]; intros t W Nz; cbn [fold_left]; [symmetry; apply cut_nil_f|].
+  change (a :: acts) with ([a] ++ acts) in *. rewrite Bof_app, Kof_app in *.
+  rewrite IH; [|apply (WF_apply_fact t a W)|intros Y; apply Nz; apply in_or_app; now right].
+  rewrite apply_fact_cut; [apply cut_cut_f|assumption|intros Y; apply Nz; apply in_or_app; now left].
+Qed.
